@@ -156,6 +156,7 @@ func c08GenSeq(rng *rand.Rand, w *wWorld, flavour string, soft bool, modelKey in
 					o.Desc = "Delete(the Model value)"
 				}
 			}
+			loaded = true // the deleted value stays the statement's Dest
 			ops = append(ops, o)
 		}
 	}
